@@ -197,13 +197,45 @@ class _PseudoYield:
         return self.data[k]
 
 
-def _yield_from_blocks(s):
-    out = []
+class _InlinedYield:
+    """A yield of a repository generator reached through ``yield from callee(args)``: value, guards and loops with the callee's parameters bound."""
+    kind = "yield"
+
+    def __init__(self, outer, inner, loopinfos, bind):
+        from ..nnabs import simplify
+        sb = lambda t: simplify(subst(t, bind))
+        self.node = outer.node
+        self.data = {"value": sb(inner["value"])}
+        self.loopinfos = [_PseudoLoop(sb(lp.elem), sb(lp.iterable), outer.node) for lp in loopinfos]
+        # simplification may rewrite the iterable inside the element term: keep element terms in step with the value
+        guards = tuple(outer.ctx.guards) + tuple((sb(g), pol) for g, pol in inner.ctx.guards)
+        self.ctx = _PseudoCtx(tuple((g, pol) for g, pol in guards if not (is_const(g) and bool(g[2]) == pol)), ())
+
+    def __getitem__(self, k):
+        return self.data[k]
+
+
+def _yield_from_blocks(r, s, depth=2):
+    """(recognised pseudo-yields, number of 'yield from' statements that are outside the idiom list)"""
+    out, unknown = [], 0
     for e in s.events_of("yield_from"):
         v = strip(e["value"])
         if head(v) == "comp" and v[1] in ("gen", "list") and not e.ctx.loops:
             out.append(_PseudoYield(e, v))
-    return out
+            continue
+        f = strip(v[1]) if head(v) == "call" else None
+        if f is not None and head(f) == "glob" and f[1] in r.P.functions and depth > 0 and not e.ctx.loops:
+            cs = r.A.summary(f[1])
+            bind = r.A.bind_call(cs, v) if cs.is_generator else None
+            if bind is not None:
+                inner, unk = _yield_from_blocks(r, cs, depth - 1)
+                unknown += unk
+                for y in list(cs.events_of("yield")) + inner:
+                    lps = y.loopinfos if hasattr(y, "loopinfos") else [cs.loops[l] for l in y.ctx.loops]
+                    out.append(_InlinedYield(e, y, lps, bind))
+                continue
+        unknown += 1
+    return out, unknown
 
 
 def check_generator(r, rule, q, families, alphabet_default="pyrepseq.io.aminoacids"):
@@ -212,10 +244,12 @@ def check_generator(r, rule, q, families, alphabet_default="pyrepseq.io.aminoaci
     rep.analysed(q)
     x = ("param", s.params[0][0])
     n = ("call", ("glob", "builtins.len"), (x,), ())
-    ys = list(s.events_of("yield")) + _yield_from_blocks(s)
+    yf, unknown = _yield_from_blocks(r, s)
+    ys = list(s.events_of("yield")) + yf
     where = where_of(r.P, s.func, s.func.node)
-    if any(e.kind == "yield_from" for e in s.events) and not all(isinstance(e, _PseudoYield) or e.kind == "yield" for e in ys):
-        raise AnalysisBroken(f"{q}: 'yield from' of something other than a generator expression is outside the idiom list")
+    if unknown:
+        rep.require(False, f"{q}: 'yield from' of something other than a generator expression or a repository generator is outside the idiom list; cannot decide [{rule}]")
+        return
     alpha = None
     for name, default, kind in s.params:
         if name == "alphabet":
@@ -233,7 +267,7 @@ def check_generator(r, rule, q, families, alphabet_default="pyrepseq.io.aminoaci
         if kind not in families:
             rep.ob(rule, q, False, f"{q.rsplit('.', 1)[1]} yields only {'/'.join(families)} edits", w, expected="/".join(families), found=kind, key=f"family {kind}")
             continue
-        lps = e.loopinfos if isinstance(e, _PseudoYield) else [s.loops[l] for l in e.ctx.loops]
+        lps = e.loopinfos if hasattr(e, "loopinfos") else [s.loops[l] for l in e.ctx.loops]
         i = ed[1]
         pos_loop = next((lp for lp in lps if lp.elem == i), None)
         okpos = pos_loop is not None
